@@ -211,7 +211,66 @@ func cmdReplay(args []string) {
 		}
 	}
 	sharedParse(&u, cases, worlds, strings.Split(*strat, ","), rep)
+	if strings.Contains(*strat, "refl") {
+		extendedBetween(&u, cases, rep)
+	}
 	rep.Emit()
+}
+
+// extendedBetween (C11, C08): a parsed request is resolved, the schema grows (a union gets a member, accepted), and the
+// same parsed request is resolved again: it answers as a freshly parsed copy of its text does on that root.  The
+// expectation is the fresh parse itself (both run on the real code); the documents are those of the cases that use a
+// union as a type condition, on a reflection world of their own.
+func extendedBetween(u *gq.Universe, cases []gq.Case, rep *vh.Report) {
+	exts := map[string]string{"on Solo": "extend union Solo = B", "on Any": "extend union Any = P"}
+	seen := map[string]bool{}
+	n := 0
+	for i := range cases {
+		c := &cases[i]
+		if c.Mix != nil || len(c.Faults) > 0 || !gq.ReflSuitable(u, c) {
+			continue
+		}
+		text := c.Doc.Text(gq.Layouts[0])
+		ext := ""
+		for k, e := range exts {
+			if strings.Contains(text, k) {
+				if _, has := u.Types[strings.Fields(e)[2]]; has {
+					ext = e
+				}
+			}
+		}
+		if ext == "" || seen[text+c.Op] || n >= 60 {
+			continue
+		}
+		seen[text+c.Op] = true
+		n++
+		w, err := gq.NewReflWorld(u, gq.ListMode(n%3), gq.Binding(n%int(gq.NumBindings)))
+		if err != nil {
+			vh.Die("%s", err)
+		}
+		exe, err := w.Root.ParseExecutableString(text)
+		if err != nil || exe == nil {
+			continue
+		}
+		_ = w.RunExe(exe, c.Op, c.Vars)
+		if err = w.Root.ParseString(ext); err != nil {
+			continue // (this root does not take the extension: nothing to compare)
+		}
+		again := w.RunExe(exe, c.Op, c.Vars)
+		fexe, ferr := w.Root.ParseExecutableString(text)
+		if ferr != nil || fexe == nil {
+			continue
+		}
+		fresh := w.RunExe(fexe, c.Op, c.Vars)
+		rep.Case("extended-between|"+text+"|"+c.Op, true)
+		rep.Class("extended-between")
+		if again.Data.String() != fresh.Data.String() || len(again.Errs) != len(fresh.Errs) {
+			rep.Mismatch(vh.Mismatch{
+				Case: map[string]interface{}{"fam": c.Fam, "request": text, "op": c.Op, "strategy": "refl", "aspect": "data", "extension": ext},
+				What: "data: (one parsed executable resolved before and after the schema was extended) data is " + again.Data.String() + " with " + fmt.Sprint(len(again.Errs)) +
+					" errors, a freshly parsed copy gives " + fresh.Data.String() + " with " + fmt.Sprint(len(fresh.Errs)) + " errors"})
+		}
+	}
 }
 
 // hasBad: the document carries an injected directive defect (spec: field `bad` of a selection).
@@ -938,7 +997,7 @@ func cmdEnvelope(args []string) {
 
 type strQuery struct{}
 
-func (q *strQuery) Echo(s string) string { return "s=" + s }
+func (q *strQuery) Echo(s string) string                 { return "s=" + s }
 func (q *strQuery) Say(word string, again string) string { return word + again }
 func (q *strQuery) Fail(s string) (interface{}, error) {
 	return nil, fmt.Errorf("failed on %s", s)
@@ -961,7 +1020,7 @@ func (q *strQuery) Huge() interface{}   { return uint64(1) << 63 }
 // them, the response is an envelope and JSON
 type strNode struct{ Name string }
 
-func (n *strNode) Next() *strNode { return &strNode{Name: n.Name + "'"} }
+func (n *strNode) Next() *strNode  { return &strNode{Name: n.Name + "'"} }
 func (q *strQuery) Node() *strNode { return &strNode{Name: "b\"q\\"} }
 
 type strSchema struct{ Query *strQuery }
@@ -994,7 +1053,7 @@ func gqlStringLiteral(s string) (string, bool) {
 func contentCases(enc *json.Encoder, rep *vh.Report) {
 	root := ggql.NewRoot(&strSchema{Query: &strQuery{}})
 	if err := root.ParseString("type Query { echo(s: String): String say(word: String, again: String): String fail(s: String): String many(s: String): String " +
-		"big: Float neg: Float bigStr: Float bigs: [Float] inf: Float64 nan: Float64 infs: [Float64] huge: Int node: Node nodes: [Node] }\n"+
+		"big: Float neg: Float bigStr: Float bigs: [Float] inf: Float64 nan: Float64 infs: [Float64] huge: Int node: Node nodes: [Node] }\n" +
 		"type Node { next: Node name: String names: [String] }"); err != nil {
 		vh.Die("content root: %s", err)
 	}
